@@ -6,6 +6,7 @@ from ..astx import (calls_in, dotted, norm, src, iter_nodes, assigned_targets, a
                     const_value, is_const, parent_chain)
 from ..lib import (call_arg, relation, truth, other, cmp_views, core, holds_region, conditions, found_test, found_tests, path_tests, entails_empty, paths_entail_empty, eval_conditions, relation_tests, atom_key, expand_condition, mode_mismatch_conditions, cfg_nodes_with_call, node_calls, returns, raises, raised_class, stmt_assigns_attr, callee_last,
                    is_name, node_roots, guard_region, compare_parts, find_test_nodes)
+from ..lib import *      # noqa: F401,F403  (path-condition helpers)
 from ..linear import ctext
 from ..loader import AnalysisError
 from ..consteval import const_str, const_val
@@ -238,15 +239,19 @@ def run(R):
         gt = tp.cfg
         loops = [n for n in iter_nodes(tp.node) if isinstance(n, ast.While)]
         c.need(len(loops) == 1, 'try_read_prompt: loop not found')
-        lt = compare_parts(loops[0].test)
-        okb = lt is not None and isinstance(lt[1], ast.Lt) and isinstance(lt[0], ast.Name) and isinstance(lt[2], ast.Name)
-        ev_, tv_ = (lt[0].id, lt[2].id) if okb else (None, None)
+        # the read is reached only under `<elapsed> < <total>` (loop condition or in-loop exit: the same path condition)
+        rk0 = [n for n, k in cfg_nodes_with_call(tp, lambda k: callee_last(k) == 'read_nonblocking')]
+        c.need(len(rk0) == 1, 'try_read_prompt: the read was not found')
+        import re as _re
+        bound = [a for a, v in loop_entry_conditions(gt, rk0[0]) if v and _re.match(r'^[A-Za-z_]\w* < [A-Za-z_]\w*$', a)]
+        okb = len(bound) == 1
+        ev_, tv_ = bound[0].split(' < ') if okb else (None, None)
         if okb:
             td = [s2 for s2 in iter_nodes(tp.node) if isinstance(s2, ast.Assign) and tv_ in assigned_names(s2)]
             okb = len(td) == 1 and any(isinstance(x, ast.Name) and x.id == tp.params[1] for x in ast.walk(td[0].value)) and \
                 not any(p is loops[0] for p in parent_chain(td[0]))
         c.check(bool(okb), tp, loops[0], 'the read loop runs while <elapsed> < <total timeout derived from the multiplier, fixed before the loop>',
-                witness=norm(loops[0].test), kind='ast', tag='loop-bound')
+                witness=str(bound), kind='path', tag='loop-bound')
         upd = [s2 for s2 in ast.walk(loops[0]) if isinstance(s2, ast.Assign) and ev_ in assigned_names(s2)]
         oku = len(upd) == 1 and isinstance(upd[0].value, ast.BinOp) and isinstance(upd[0].value.op, ast.Sub) and norm(upd[0].value.left) == 'time.time()' \
             and isinstance(upd[0].value.right, ast.Name)
